@@ -10,9 +10,9 @@ RULE = ("models = behaviours of spec/Pep.tla (12 function/operator classes x ste
 
 def select(t, c):
     step, prop, name, detail = c
+    if prop == "ALL":
+        return sc.crash(t, c, PID, 'cvxpy')
     o = t["solves"][step - 1]
-    if prop == "ALL" and o["opts"]["wrapper"] == "cvxpy":
-        return "C01|%s" % name, "solve %d (%s) of a valid model raised instead of returning a bound: %s" % (step, sc.solvestr(o), name)
     if prop != "C01":
         return None
     cls = sc.CLASSNAME.get(t["prog"]["cls"], "?")
